@@ -1,4 +1,5 @@
 import MpVerif.C14.Model
+import MpVerif.Gen.SolGuards
 /-!
 # C05 — model of the SOL writer (`include/mp/sol.h`, `src/sol.cc`)
 
@@ -122,7 +123,9 @@ def writeVals {D : Type} (c : Codec D) : List D → Bytes
   | [] => []
   | v :: r => c.enc v ++ nl ++ writeVals c r
 
-def writeSol {D : Type} (c : Codec D) (s : Sol D) : Bytes :=
+/-- the file with every `print` written out by hand — the form the lemmas work with; `writeSol` below renders the same prints from the
+format strings of the tree under test and is proved equal to this one (`writeSol_eq_lit`, C05/LemmasAll.lean) -/
+def writeSolLit {D : Type} (c : Codec D) (s : Sol D) : Bytes :=
   writeMessage s.msg
   ++ str "Options" ++ nl
   ++ (if s.options.length = 0 then [] else encNat s.options.length ++ nl ++ writeIntLines s.options)
@@ -132,13 +135,101 @@ def writeSol {D : Type} (c : Codec D) (s : Sol D) : Bytes :=
   ++ str "objno " ++ encInt (s.objno - 1) ++ sp ++ encInt s.status ++ nl
   ++ writeSuffixes c s.sufs
 
-/-- The format strings that `SuffixValueWriter::Visit` (int, double), `WriteSuffixes` (header + name, table) and `WriteSolFile`
-(Options, option count, each option, the four counts, dual value, primal value, objno line) pass to `print`, in source order,
-as `writeSol` above renders them (`{}` of an integer = `encInt`/`encNat`, `{:.16}` of a double = `Codec.enc`).
-Tied to include/mp/sol.h by `C05_gen_writer_formats` (the generated list is re-read from the source on every run). -/
-def writerFormats : List String :=
-  ["{} {}\\n", "{} {:.16}\\n", "suffix {} {} {} {} {}\\n{}\\n", "{}\\n", "Options\\n", "{}\\n", "{}\\n", "{0}\\n{1}\\n{2}\\n{3}\\n",
-   "{:.16}\\n", "{:.16}\\n", "objno {} {}\\n"]
+/-! ## the same file, rendered from the format strings of the tree under test
+
+`MpVerif.Gen.SolGuards.writer_formats` is the list of format strings of every `print` in include/mp/sol.h, in source order, re-read from the
+source on every run (translators/gen_solguards.py).  `fmtGo` is a small interpreter of the fmt syntax that occurs there (`\n`, `{}`, `{:.16}`,
+`{0}`…`{9}`); anything else is not rendered (`none`).  `writeSol` prints every piece through it, so a changed format string changes the bytes of the
+model (driver, correspondence) and the statements of all round-trip theorems. -/
+
+inductive FArg (D : Type) where
+  | nat (n : Nat)
+  | int (i : Int)
+  | txt (b : Bytes)
+  | real (d : D)
+
+/-- `{}` of an integer / a string, `{:.16}` of a double; every other combination is outside the model -/
+def renderArg {D : Type} (c : Codec D) (spec : List Char) : FArg D → Option Bytes
+  | .nat n => if spec = [] then some (encNat n) else none
+  | .int i => if spec = [] then some (encInt i) else none
+  | .txt b => if spec = [] then some b else none
+  | .real d => if spec = [':', '.', '1', '6'] then some (c.enc d) else none
+
+def optCat : Option Bytes → Option Bytes → Option Bytes
+  | some a, some b => some (a ++ b)
+  | _, _ => none
+
+/-- state `none`: literal text; `some acc`: inside `{…}` (characters so far, reversed).  The strings are spelled as in the C++ source (`\n` is two characters). -/
+def fmtGo {D : Type} (c : Codec D) (args : List (FArg D)) : List Char → Option (List Char) → Nat → Option Bytes
+  | [], none, _ => some []
+  | [], some _, _ => none
+  | ch :: r, some acc, auto =>
+    if ch = '}' then
+      match acc.reverse with
+      | [d] =>
+        if d.isDigit then
+          match args[d.toNat - 48]? with
+          | some a => optCat (renderArg c [] a) (fmtGo c args r none auto)
+          | none => none
+        else none
+      | spec =>
+        match args[auto]? with
+        | some a => optCat (renderArg c spec a) (fmtGo c args r none (auto + 1))
+        | none => none
+    else fmtGo c args r (some (ch :: acc)) auto
+  | '\\' :: 'n' :: r, none, auto => optCat (some [10]) (fmtGo c args r none auto)
+  | ch :: r, none, auto =>
+    if ch = '{' then fmtGo c args r (some []) auto
+    else if ch = '\\' ∨ ch = '}' ∨ ch.toNat ≥ 128 then none
+    else optCat (some [ch.toNat]) (fmtGo c args r none auto)
+
+/-- the `k`-th `print` of include/mp/sol.h applied to its arguments -/
+def fmtK {D : Type} (c : Codec D) (k : Nat) (args : List (FArg D)) : Bytes :=
+  match MpVerif.Gen.SolGuards.writer_formats[k]? with
+  | some f => (fmtGo c args f.toList none 0).getD (str "<format not rendered>")
+  | none => str "<no such print>"
+
+/-- `SuffixValueWriter::Visit(int, int)`: print 0 -/
+def wEntriesI {D : Type} (c : Codec D) : Nat → List Int → Bytes
+  | _, [] => []
+  | i, v :: vs => if v = 0 then wEntriesI c (i + 1) vs else fmtK c 0 [.nat i, .int v] ++ wEntriesI c (i + 1) vs
+
+/-- `SuffixValueWriter::Visit(int, double)`: print 1 -/
+def wEntriesD {D : Type} (c : Codec D) : Nat → List D → Bytes
+  | _, [] => []
+  | i, v :: vs => if c.isZero v then wEntriesD c (i + 1) vs else fmtK c 1 [.nat i, .real v] ++ wEntriesD c (i + 1) vs
+
+/-- `WriteSuffixes`, one suffix: prints 2 (header and name) and 3 (table) -/
+def wSuffix {D : Type} (c : Codec D) (s : Suf D) : Bytes :=
+  if !isOutput s.kind then [] else
+  let tablen := if s.table = [] then 0 else s.table.length + 1
+  let tablines := if s.table = [] then 0 else 1 + countNl s.table
+  fmtK c 2 [.nat (kindMask s.kind), .nat (s.entries c).length, .nat (s.name.length + 1), .nat tablen, .nat tablines, .txt s.name]
+    ++ (if s.table = [] then [] else fmtK c 3 [.txt s.table])
+    ++ (if isFloat s.kind then wEntriesD c 0 s.dvals else wEntriesI c 0 s.ivals)
+
+def wSuffixes {D : Type} (c : Codec D) : List (Suf D) → Bytes
+  | [] => []
+  | s :: r => wSuffix c s ++ wSuffixes c r
+
+def wIntLines {D : Type} (c : Codec D) : List Int → Bytes
+  | [] => []
+  | i :: r => fmtK c 6 [.int i] ++ wIntLines c r
+
+def wVals {D : Type} (c : Codec D) (k : Nat) : List D → Bytes
+  | [] => []
+  | v :: r => fmtK c k [.real v] ++ wVals c k r
+
+/-- `mp::WriteSolFile`: prints 4 (`Options`), 5 (count), 6 (each option), 7 (the four counts), 8 / 9 (dual / primal value), 10 (`objno`) -/
+def writeSol {D : Type} (c : Codec D) (s : Sol D) : Bytes :=
+  writeMessage s.msg
+  ++ fmtK c 4 []
+  ++ (if s.options.length = 0 then [] else fmtK c 5 [.nat s.options.length] ++ wIntLines c s.options)
+  ++ fmtK c 7 [.nat s.ncons, .nat s.duals.length, .nat s.nvars, .nat s.primals.length]
+  ++ wVals c 8 s.duals
+  ++ wVals c 9 s.primals
+  ++ fmtK c 10 [.int (s.objno - 1), .int s.status]
+  ++ wSuffixes c s.sufs
 
 /-- order of the suffix kinds in `WriteSolFile` (the order of `Sol.sufs`) -/
 def writerKindOrder : List String := ["suf::VAR", "suf::CON", "suf::OBJ", "suf::PROBLEM"]
